@@ -17,6 +17,8 @@ type executor struct {
 	ag    *agentExec
 	hm    [8]*hmSlot
 	cl    *clientExec
+	keyBuf []byte
+	dialCfg *stun.DialConfig
 	ext  map[string]func(*executor, []string) (string, bool)
 }
 
